@@ -350,9 +350,9 @@ func c20Reject(w *W) {
 		{"--pull", "--bind", addr, "--recv-timeout", "1_0"},
 		{"--push", "--bind", addr, "--data", "x", "--interval", "0b11"},
 		{"--push", "--bind", addr, "--data", "x", "--send-delay", "0o17"},
-		{"--push", "--bind", addr, "--data", "", "--file", "/etc/hostname"},   // explicitly empty data, then a file
-		{"--push", "--bind", addr, "--data=", "--file", "/etc/hostname"},      // same, = form
-		{"--push", "--bind", addr, "--file", "/etc/hostname", "--data", ""},   // other order
+		{"--push", "--bind", addr, "--data", "", "--file", "/etc/hostname"}, // explicitly empty data, then a file
+		{"--push", "--bind", addr, "--data=", "--file", "/etc/hostname"},    // same, = form
+		{"--push", "--bind", addr, "--file", "/etc/hostname", "--data", ""}, // other order
 		{"--push", "--bind", addr, "--file", "/dev/null", "--file", "/etc/hostname"},
 	}
 	i := w.Choose(simrt.SShape, len(cases))
